@@ -160,7 +160,10 @@ def nelder_mead(
             evaluate.to_user(values[0]),
             evaluate.evals,
         ):
-            return Result(simplex[0], evaluate.to_user(values[0]), iteration, evaluate.evals, Status.FEASIBLE)
+            # This iteration may have produced a vertex better than simplex[0]
+            best_idx = min(range(n + 1), key=lambda i: values[i])
+            best_objective = evaluate.to_user(values[best_idx])
+            return Result(simplex[best_idx], best_objective, iteration, evaluate.evals, Status.FEASIBLE)
 
     # Find best vertex
     best_idx = min(range(n + 1), key=lambda i: values[i])
